@@ -140,7 +140,7 @@ def inv_oracle(vals, line):
 
 
 
-GROUP_DBL = dict(name='dbl', sources=['h_dbl.cpp'], repo_sources=[], driver=None, replay_prefix=('o.c13.cinvd', 'o.c13.inttypes', 'o.c14.angletypes', 'o.c15.dyadic'))
+GROUP_DBL = dict(name='dbl', sources=['h_dbl.cpp'], repo_sources=[], driver=None, replay_prefix=('o.c12.ldmean', 'o.c13.cinvd', 'o.c13.inttypes', 'o.c14.angletypes', 'o.c15.dyadic'))
 
 
 def gen_dbl_c13(g, tier):
@@ -177,8 +177,20 @@ def gen_dbl_inttypes(g, tier):
     """integer- and float-typed scalars against the double scalar (harness group dbl): Vector, Matrix, Stokes, Quaternion, Estimate"""
     cs = []
     for _ in range(10 if tier == 'quick' else 300):
-        k = g.choice([2, 3, -7, 1, -1, 10, 100, g.randint(2, 60), -g.randint(2, 60)])
+        k = g.choice([2, 3, -7, 1, -1, 10, 100, g.randint(2, 60), -g.randint(2, 60), 32767, 32768, 46340, 46341, 65535, 65536, 65537, 100000, -65537, 16777215, 16777217, 2147483647, -2147483647])
         cs.append(Case('o.c13.inttypes %d %s' % (k, ' '.join(dhex(g.r.uniform(-5, 5)) for _ in range(4))), 'orc', 'scalar-of-another-arithmetic-type'))
+    return cs
+
+
+def gen_dbl_c12(g, tier):
+    """MeanEstimate<long double> with variances far outside the range of double (harness group dbl)"""
+    from .props_est import small_hex_check
+    cs = []
+    for _ in range(10 if tier == 'quick' else 300):
+        n = g.randint(1, 5); base = g.choice([-4000, -400, -330, -320, 0, 300, 320, 400, 4000, g.randint(-4500, 4500)])
+        items = []
+        for _ in range(n): items += [dhex(g.r.uniform(-9, 9)), str(base + g.randint(-3, 3))]
+        cs.append(Case('o.c12.ldmean %d %s' % (n, ' '.join(items)), 'orc', 'long-double-variances-beyond-double', check=small_hex_check(1e-15)))
     return cs
 
 
@@ -282,6 +294,7 @@ def small_abs(tol, xs):
 
 
 def gen_C14(g, tier):
+    def ell(o, e): return 'ell %s %s %s' % (dhex(o), dhex(e), ' '.join(dhex(x) for x in (math.cos(2.0 * o), math.sin(2.0 * o), math.cos(2.0 * e), math.sin(2.0 * e))))
     n = 8 if tier == 'quick' else 150
     cs = []
     axes = unit_axes(g, n)
@@ -315,6 +328,14 @@ def gen_C14(g, tier):
         x = g.rats(3)
         cs.append(Case('o.c14.basis %d %s %s' % (len(seq), ' '.join(seq), frs(x)), 'orc', 'basis-sequence-refused-setting', check=small_abs(1e-13, x)))
         cs.append(Case('basis.obj %d %s %s' % (len(seq), ' '.join(seq), frs(x)), 'cmp', 'basis-sequence-refused-setting'))
+    # an elliptical setting whose orientation is bit-equal to the one a named basis left behind (0 or pi/4), after a refused setting
+    for _ in range(4 if tier == 'quick' else 60):
+        e1, e2, o1 = g.r.uniform(-1, 1), g.choice([0.25 * math.pi, 0.2, g.r.uniform(-1, 1)]), g.r.uniform(-3, 3)
+        for seq in (['cir', 'bad', ell(0.25 * math.pi, e2)], ['lin', 'bad', ell(0.0, e2)], [ell(o1, e1), 'lin', 'bad', ell(0.0, e2)], [ell(o1, e1), 'cir', 'bad', ell(0.25 * math.pi, 0.25 * math.pi)],
+                    ['cir', ell(0.25 * math.pi, e2)], ['lin', ell(0.0, e2)], [ell(o1, e1), 'bad', ell(o1, e2)], ['bad', ell(0.0, e1)]):
+            x = g.rats(3)
+            cs.append(Case('basis.obj %d %s %s' % (len(seq), ' '.join(seq), frs(x)), 'cmp', 'basis-sequence-named-refused-elliptical'))
+            cs.append(Case('o.c14.history %d %s %s' % (len(seq), ' '.join(seq), frs(x)), 'orc', 'basis-sequence-named-refused-elliptical'))
     # two objects used in turn (settings repeated across objects, copies of the same angles)
     for _ in range(8 if tier == 'quick' else 200):
         pool = [g.choice(bas)[1] for _ in range(3)]
@@ -322,7 +343,6 @@ def gen_C14(g, tier):
         for _ in range(g.randint(2, 8)): steps.append('%d %s' % (g.randint(0, 1), g.choice(pool)))
         cs.append(Case('o.c14.twoobj %d %s %s' % (len(steps), ' '.join(steps), frs(g.rats(3))), 'orc', 'two-objects-interleaved'))
     # successive elliptical settings that share one of the two angles (a setting must take effect whatever the previous one was)
-    def ell(o, e): return 'ell %s %s %s' % (dhex(o), dhex(e), ' '.join(dhex(x) for x in (math.cos(2.0 * o), math.sin(2.0 * o), math.cos(2.0 * e), math.sin(2.0 * e))))
     for _ in range(6 if tier == 'quick' else 200):
         o1, o2, e1, e2 = g.r.uniform(-4, 4), g.r.uniform(-4, 4), g.r.uniform(-2, 2), g.r.uniform(-2, 2)
         for seq in ([ell(o1, e1), ell(o2, e1)], [ell(o1, e1), ell(o1, e2)], [ell(o1, e1), 'lin', ell(o2, e1)], [ell(o1, e1), ell(o1, e1)],
